@@ -33,6 +33,9 @@ def budget(tier):
 @st.composite
 def strategy(draw, tier="quick"):
     base = gen.floor_ms(draw(gen.instants(lo=2 * DAY, hi=gen.MAX_US - 3 * DAY)))
+    if draw(st.integers(0, 11)) == 0:
+        # the first hours of 1970-01-01 at +14:00 are instants before the epoch
+        base = -draw(st.sampled_from([14 * 3600, 13 * 3600, 3600, 60, 50, 1])) * 10**6
     n = draw(st.integers(1, 10))
     evs = []
     for _ in range(n):
@@ -103,7 +106,7 @@ def run_case(case):
         with sut(f"{be}: setup"):
             b = stores.create_bucket(ds, "b")
             for i, e in enumerate(case["events"]):
-                r = b.insert(stores.mk_event(Event, {"us": base + e["off_ms"] * 1000, "off": 0, "dur_us": e["dur_us"], "data": {"i": i}}))
+                r = b.insert(stores.mk_event(Event, {"us": base + e["off_ms"] * 1000, "off": 840 if base < 0 else 0, "dur_us": e["dur_us"], "data": {"i": i}}))
                 stored[r.id] = (base + e["off_ms"] * 1000, base + e["off_ms"] * 1000 + e["dur_us"], i)
             if case.get("early_read"):
                 # a windowed read and count BEFORE the history continues (a store may remember things about its contents)
@@ -114,7 +117,7 @@ def run_case(case):
             for j, m in enumerate(case.get("mods", [])):
                 ids_now = sorted(stored)
                 new = (base + m["off_ms"] * 1000, base + m["off_ms"] * 1000 + m["dur_us"], 1000 + j)
-                ev = stores.mk_event(Event, {"us": new[0], "off": 0, "dur_us": m["dur_us"], "data": {"i": new[2]}})
+                ev = stores.mk_event(Event, {"us": new[0], "off": 840 if base < 0 else 0, "dur_us": m["dur_us"], "data": {"i": new[2]}})
                 if m["op"] == "insert" or not ids_now:
                     stored[b.insert(ev).id] = new
                 elif m["op"] == "delete":
